@@ -89,3 +89,16 @@ pub fn set_errno(e: c_int) {
 pub fn errno() -> c_int {
     unsafe { *libc::__errno_location() }
 }
+
+/// signal(2) with the BSD semantics glibc gives it (handler stays installed, system calls are restarted)
+pub unsafe fn signal(sig: c_int, handler: usize) -> usize {
+    let mut new: libc::sigaction = std::mem::zeroed();
+    let mut old: libc::sigaction = std::mem::zeroed();
+    new.sa_sigaction = handler;
+    new.sa_flags = libc::SA_RESTART;
+    libc::sigemptyset(&mut new.sa_mask);
+    if libc::sigaction(sig, &new, &mut old) != 0 {
+        return libc::SIG_ERR;
+    }
+    old.sa_sigaction
+}
